@@ -343,6 +343,18 @@ func (s *transactionStore) Watch(ctx context.Context, ch chan<- configapi.Transa
 			}()
 		}
 
+		// send hands an event to the watcher unless the watch is cancelled first: a watcher that has stopped
+		// reading (a Set or rollback handler that has its answer) must not hold this goroutine for ever
+		send := func(event configapi.TransactionEvent) bool {
+			select {
+			case ch <- event:
+				return true
+			case <-ctx.Done():
+				closeAndDrain()
+				return false
+			}
+		}
+
 		if options.replay {
 			if options.transactionID != "" {
 				entry, err := s.transactions.Get(ctx, options.transactionID)
@@ -359,9 +371,11 @@ func (s *transactionStore) Watch(ctx context.Context, ch chan<- configapi.Transa
 						closeAndDrain()
 						return
 					}
-					ch <- configapi.TransactionEvent{
+					if !send(configapi.TransactionEvent{
 						Type:        configapi.TransactionEvent_REPLAYED,
 						Transaction: *transaction,
+					}) {
+						return
 					}
 				}
 			} else {
@@ -387,9 +401,11 @@ func (s *transactionStore) Watch(ctx context.Context, ch chan<- configapi.Transa
 					transaction := entry.Value
 					transaction.Index = configapi.Index(entry.Index)
 					transaction.Version = uint64(entry.Version)
-					ch <- configapi.TransactionEvent{
+					if !send(configapi.TransactionEvent{
 						Type:        configapi.TransactionEvent_REPLAYED,
 						Transaction: *transaction,
+					}) {
+						return
 					}
 				}
 			}
@@ -398,7 +414,9 @@ func (s *transactionStore) Watch(ctx context.Context, ch chan<- configapi.Transa
 		for {
 			select {
 			case event := <-eventCh:
-				ch <- event
+				if !send(event) {
+					return
+				}
 			case <-ctx.Done():
 				closeAndDrain()
 				return
